@@ -1,11 +1,206 @@
 import KG.Lemmas.MaxInflight
-import KG.Spec.LocalLimiter
+import KG.Lemmas.LocalLimiter
+/-!
+# C05 — Local max-in-flight: never more than M admitted and unfinished; slots never leak
+
+Three layers (DESIGN.md §5 C05), all about the tree after `fix: hand requests the limiter in force …`:
+
+(a) `KG.Model.MaxInflight` — the lock-free counter of the dependency, one step per atomic operation,
+    any number of threads, **every interleaving** (`Reachable` = reachable by some schedule).
+(b) `KG.Model.LocalLimiter` — `upstreamLimiter` / `FlowControlCache` / `localWrapper.Sync` over **every
+    history** of reconfigurations, arrivals and completions; the property is the judge
+    `KG.Spec.LocalLimiter.judge` (what the harness also evaluates on the real code's answers).
+(c) `dispatcher.ServeHTTP`, abstracted statement by statement from the current source
+    (`KG.Gen.C05.serveHTTP`): the slot is given back exactly once on **every way out**.
+-/
 namespace KG.Props.C05
+open KG
+
+/-! ## (a) the counter, every interleaving -/
+section counter
 open KG.Model.MaxInflight KG.Lemmas.MaxInflight
 
-/-- every interleaving: the counter is exactly holders + pending roll-backs -/
+/-- The counter is exactly the requests admitted and unfinished plus the overshoots about to be rolled back;
+    it is never negative. -/
 theorem c05_counter_inv {s : Sys} (h : Reachable s) :
     s.count = s.holders.length + s.pending.length ∧ 0 ≤ s.count :=
   ⟨(inv_reachable h).cnt, count_nonneg (inv_reachable h)⟩
+
+/-- The branches that would lose or invent slots are unreachable for well-formed clients: no thread is
+    ever at the CAS or at the clamp-to-zero store, and a holder that starts `Release` never takes the
+    `if f.count <= 0 { return }` exit (which would keep its slot for ever). -/
+theorem c05_leak_paths_unreachable {s : Sys} (h : Reachable s) (t : Tid) :
+    s.pc t ≠ .rel2 ∧ (∀ c0 m, s.pc t ≠ .cas c0 m) ∧ (s.pc t = .holding → 0 < s.count) := by
+  have hi := inv_reachable h
+  refine ⟨hi.noRel2 t, hi.noCas t, ?_⟩
+  intro hpc
+  have hh : t ∈ s.holders := (hi.hold t).2 (Or.inl hpc)
+  have := List.length_pos_of_mem hh
+  have := hi.cnt
+  omega
+
+/-- **Bound at every admission**: the step that admits is the `Add(+1)` of a thread that loaded `m` as the
+    limit in this very call, and right after it at most `m` requests are admitted and unfinished. -/
+theorem c05_bound {s : Sys} (h : Reachable s) (t : Tid) (hadm : (stepThread s t).2 = .admitted) :
+    ∃ m : Int, s.pc t = .adding m ∧ ((stepThread s t).1.holders.length : Int) ≤ m := by
+  obtain ⟨m, h1, h2, _⟩ := admit_bound (inv_reachable h) t hadm
+  exact ⟨m, h1, h2⟩
+
+/-- With a limit that never exceeds `M` (constant, or resized to values `≤ M`), at no instant are more
+    than `M` requests admitted and unfinished — for every schedule. -/
+theorem c05_bound_max (M : Nat) (es : List Ev) (hr : ResizesLe M es) :
+    (run (init M) es).holders.length ≤ M :=
+  bound_run (inv_init M) (cap_init M) (by simp [init]) es hr
+
+/-- **Resize semantics**: once the limit is `M'`, a `TryAcquire` that starts afterwards (thread `t` is not
+    inside a call) admits only if at most `M'` are then in flight, however the other threads — including
+    those that loaded the old limit — interleave. -/
+theorem c05_resize {s : Sys} (h : Reachable s) (M' : Nat) (t : Tid) (hidle : s.pc t = .idle ∨ s.pc t = .holding)
+    (es : List Ev) (hn : NoResize es) : AdmitsWithin M' t (step s (.resize M')).1 es := by
+  have hi : SInv (step s (.resize M')).1 := inv_step (inv_reachable h) _
+  refine resize_run hi ⟨rfl, ?_⟩ es hn
+  intro m hm
+  have : s.pc t = .adding m := hm
+  rcases hidle with h1 | h1 <;> rw [h1] at this <;> cases this
+
+/-- **No leak**: whenever no thread is inside a call the counter equals the number of requests in flight … -/
+theorem c05_no_leak {s : Sys} (h : Reachable s) (hq : Quiescent s) : s.count = s.holders.length :=
+  quiescent_count (inv_reachable h) hq
+
+/-- … so a request arriving then is admitted **iff** fewer than `max` are in flight: after all requests
+    have finished, exactly `max` new ones are admitted again. The complete call is the sequential
+    `Counter.tryAcquire` that layer (b) uses. -/
+theorem c05_refill {s : Sys} (h : Reachable s) (hq : Quiescent s) (t : Tid) (hpc : s.pc t = .idle) :
+    (runCall s t 4).2 = (if s.holders.length < s.max then Out.admitted else Out.rejected) ∧
+    (runCall s t 4).2 = (if (Counter.tryAcquire ⟨s.count, s.max⟩).2 then Out.admitted else Out.rejected) ∧
+    (runCall s t 4).1.count = (Counter.tryAcquire ⟨s.count, s.max⟩).1.count := by
+  have hi := inv_reachable h
+  have hc := quiescent_count hi hq
+  have h0 := count_nonneg hi
+  obtain ⟨h1, _, h3, _⟩ := runCall_tryAcquire hi t hpc
+  refine ⟨?_, h3, h1⟩
+  rw [h3]
+  have hlt : ¬ s.count < 0 := by omega
+  simp only [Counter.tryAcquire, hlt, if_false]
+  by_cases hfull : s.count ≥ (s.max : Int)
+  · have : ¬ s.holders.length < s.max := by omega
+    simp [hfull, this]
+  · have h1 : ¬ s.count + 1 > (s.max : Int) := by omega
+    have : s.holders.length < s.max := by omega
+    simp [hfull, h1, this]
+
+/-- A holder's complete `Release` gives exactly its own slot back. -/
+theorem c05_release_gives_back {s : Sys} (h : Reachable s) (t : Tid) (hpc : s.pc t = .holding) :
+    (runCall s t 3).1.count = s.count - 1 ∧ (runCall s t 3).1.holders = s.holders.erase t ∧
+    (runCall s t 3).2 = .released := by
+  obtain ⟨h1, _, _, h4, h5, _⟩ := runCall_release (inv_reachable h) t hpc
+  exact ⟨h1, h5, h4⟩
+
+/-! non-vacuity: two threads at limit 1, fully interleaved — one holds the slot, the other has overshot and
+    is about to roll back (`count = 2 > max`, yet only one request is admitted); then the limit is raised
+    and a third thread, which starts afterwards, is admitted as number 2. -/
+example :
+    let s := run (init 1) [.step 0, .step 1, .step 0, .step 1, .step 0, .step 1]
+    Reachable s ∧ s.count = 2 ∧ s.holders = [0] ∧ s.pending = [1] ∧ s.pc 2 = .idle := by
+  refine ⟨⟨1, _, rfl⟩, ?_⟩
+  decide
+example :
+    let s := run (init 1) [.step 0, .step 1, .step 0, .step 1, .step 0, .step 1, .step 1, .resize 2,
+      .step 2, .step 2, .step 2]
+    s.holders = [2, 0] ∧ s.count = 2 ∧ s.max = 2 ∧ Quiescent s := by
+  refine ⟨by decide, by decide, by decide, ?_⟩
+  intro t
+  match t with
+  | 0 => exact Or.inr (by decide)
+  | 1 => exact Or.inl (by decide)
+  | 2 => exact Or.inr (by decide)
+  | (n + 3) => exact Or.inl (by simp [run, step, stepThread, setPc, init])
+
+/-- regenerated fact: the atomic operations of the dependency's `atomicTokenBucket`, in source order, are
+    the ones the model has a step for; `NewFlowControl` builds a max-in-flight limiter with that type. -/
+theorem c05_fact_counter_ops :
+    KG.Gen.C05.tryAcquireOps = tryAcquireOps ∧ KG.Gen.C05.releaseOps = releaseOps ∧
+    KG.Gen.C05.resizeOps = resizeOps ∧ KG.Gen.C05.counterCtor = counterCtor := by decide
+
+end counter
+
+/-! ## (b) reconfiguration, every history -/
+section limiter
+open KG.Model.LocalLimiter KG.Spec.LocalLimiter KG.Lemmas.LocalLimiter
+
+/-- **The property over every history** of `Sync` (resize, type change, delete, re-add, duplicates,
+    re-submission), arrivals and completions on any number of clusters: every answer of the limiter is the
+    one the judge demands — admitted iff fewer than `M` of the requests admitted under the schema since it
+    last became a max-in-flight schema are unfinished, `M` being the limit in force at that moment; never a
+    refusal where no limit applies; never a panic on arrival. -/
+theorem c05_reconfig_bound (ops : List Op) : judge ops (KG.Model.LocalLimiter.run World.init ops) = none :=
+  judgeFrom_run rel_init 0 ops
+
+/-- An arriving request never brings the gateway down (no nil limiter is ever handed out for a non-empty
+    schema name, no dangling limiter). -/
+theorem c05_arrival_never_panics {w : World} (h : KG.Model.LocalLimiter.Reachable w) (c n : Str) (tb : Bool) :
+    ∃ w' b, acquire w c n tb = .ok (w', b) := by
+  obtain ⟨σ, hr⟩ := reachable_rel h
+  obtain ⟨w', b, ha, _⟩ := acquire_step hr c n tb
+  exact ⟨w', b, ha⟩
+
+/-- **Isolation** (frame theorem, per cluster and per schema): an op that does not concern `(c, n)` — an
+    arrival or a completion under another schema or cluster, however many; any `Sync` of another cluster —
+    does not change the answer a request for `(c, n)` gets. Exhausting one limit never causes a rejection
+    under another. -/
+theorem c05_isolation {w : World} (h : KG.Model.LocalLimiter.Reachable w) (op : Op) (c n : Str) (tb : Bool)
+    (hna : ¬ addresses w op c n) :
+    answer (KG.Model.LocalLimiter.step w op).1 c n tb = answer w c n tb := by
+  obtain ⟨σ, hr⟩ := reachable_rel h
+  exact isolation_step hr op c n tb hna
+
+/-! non-vacuity: the witness of findings/C05-release-hits-swapped-limiter (token bucket → max-in-flight
+    `M = 1`, three requests). The model (fixed code) refuses the third request; the judge rejects the
+    answers the pristine tree gave (third request admitted) at op 5 — so the judge is not trivially true. -/
+def witnessSchema (mi : Option Int) (tb : Option (Int × Int)) : Schema := ⟨[102, 99], [], false, mi, tb, none, none⟩
+def witness : List Op :=
+  [.sync [99] [witnessSchema none (some (1000, 1000))], .acquire [99] [102, 99] true,
+   .sync [99] [witnessSchema (some 1) none], .acquire [99] [102, 99] true, .release 0, .acquire [99] [102, 99] true]
+example : KG.Model.LocalLimiter.run World.init witness =
+    [.synced, .acquired true, .synced, .acquired true, .released true, .acquired false] := by decide
+example : judge witness [.synced, .acquired true, .synced, .acquired true, .released true, .acquired true] = some 5 := by
+  decide
+example : KG.Model.LocalLimiter.Reachable (exec World.init witness) := ⟨witness, rfl⟩
+example : ¬ addresses (exec World.init witness) (.acquire [99] [120] true) [99] [102, 99] := by
+  simp [addresses]
+
+/-- regenerated fact: `upstreamLimiter.Load` hands out the limiter in force (`Current()`) at both places
+    where it returns the local limiter — what the model's `getOrDefault` does. -/
+theorem c05_fact_load_returns_current : KG.Gen.C05.loadLocalReturns = loadLocalReturns := by decide
+
+end limiter
+
+/-! ## (c) every way out of `dispatcher.ServeHTTP` -/
+section dispatcher
+open KG.Model.LocalLimiter KG.Lemmas.LocalLimiter
+
+/-- regenerated fact: in the current `ServeHTTP`, `defer flowcontrol.Release()` is the statement that follows
+    the `if !flowcontrol.TryAcquire() { …; return }` guard, and nothing else mentions `TryAcquire`/`Release`. -/
+theorem c05_fact_dispatcher_shape : shapeOk dispatcherProgram = true := by decide
+
+/-- **Release exactly once**: whatever each statement of `ServeHTTP` does — fall through, return early
+    (answered by the gateway: no match, no ready endpoint, bad endpoint …), or panic (client abort, broken
+    upstream, anything) — and whatever the limiter answers, the number of `Release` calls equals the number of
+    successful `TryAcquire` calls, which is at most one. -/
+theorem c05_release_once (sc : Scenario) :
+    countRel (serve dispatcherProgram sc) = countAcq (serve dispatcherProgram sc) ∧
+    countAcq (serve dispatcherProgram sc) ≤ 1 :=
+  exec_release_once sc dispatcherProgram 0 [] c05_fact_dispatcher_shape rfl
+
+/-! non-vacuity: a request that is admitted and then finds no ready endpoint (the first guard after the
+    `defer`), and one that panics in the last statement: one acquisition, one release each. -/
+example : let sc : Scenario := ⟨fun i => if i = 19 then .exit else .go, true⟩
+    countAcq (serve dispatcherProgram sc) = 1 ∧ countRel (serve dispatcherProgram sc) = 1 := by decide
+example : let sc : Scenario := ⟨fun i => if i = 37 then .panic else .go, true⟩
+    countAcq (serve dispatcherProgram sc) = 1 ∧ countRel (serve dispatcherProgram sc) = 1 := by decide
+example : let sc : Scenario := ⟨fun _ => .go, false⟩
+    countAcq (serve dispatcherProgram sc) = 0 ∧ countRel (serve dispatcherProgram sc) = 0 := by decide
+
+end dispatcher
 
 end KG.Props.C05
